@@ -159,6 +159,19 @@ SPECS['C16'] = {
 }
 
 TLSSRC = ['harness/venv.c']
+
+SPECS['C06'] = {
+    'level': 'fault_enumeration',
+    'technique': 'exhaustive <=1-deviation mutation enumeration of library-built objects (byte substitutions from a boundary alphabet at every offset, every truncation, every length-field / tag rewrite of every TLV found by a DER walker, algebraic boundary values in 32-byte fields, capacity +-1 lists) fed in exact-size heap blocks to every decoder / verifier / printer under ASan+UBSan(bounds), and of every handshake record of live handshakes over vnet with a peer-state guard; one guarded implementation run per mutant',
+    'claim': 'No mutant of the enumerated neighbourhood of any seed makes any consumer read or write outside the presented block or its own buffers, abort, or hang; a peer that alters any byte of any handshake record, or sends over-long lists, never crashes the endpoint nor changes its configured CA certificates, chain or keys.',
+    'trusted': 'ASan redzones + UBSan bounds/null/object-size as the memory oracle; exact-size malloc blocks (no slack); guarded child with per-case timeout as abort/hang oracle',
+    'rule': 'c06a: per seed (certificate, chain, CRL, CSR, 5 CMS types, PKCS#8 plain/encrypted, SPKI, ECPrivateKey, SM2/SM9 signatures, ciphertexts and keys, PEM, hex/base64/URI/HTTP text, handshake records of honest TLCP/TLS1.2 runs): 9 substitutions x every offset + every truncation + per TLV header 11 length encodings + 14 tags + 9 boundary values; capacity block. c06b: per configuration and handshake record: substitutions at every payload offset (quick: thinned), length-field rewrites, oversize certificate lists, with state guard.',
+    'bound': {'quick': '1 mutation, offsets thinned (step 3) for seeds > 2500 bytes', 'thorough': '1 mutation at every offset'},
+    'assumptions': ['two simultaneous mutations out of scope', 'file / socket plumbing of the command-line tools not covered'],
+    'quick': [J('c06a', 'asan', srcs=TLSSRC, deadline=150)],
+    'thorough': [J('c06a', 'asan', srcs=TLSSRC, deadline=1500)],
+    'budget': {'quick': 170, 'thorough': 1700},
+}
 SPECS['C08'] = {
     'level': 'model_checking',
     'technique': 'stateless model checking of the two real endpoints under a controlled scheduler and environment: deviation-bounded exhaustive exploration of short reads / partial sends / task switches at every socket call, plus the crossed application size alphabet; every execution is an implementation run',
